@@ -65,9 +65,10 @@ static const char *const HOSTS[] = {
 
 struct meth { const char *name; unsigned bit; };
 static const struct meth METH[] = {
-	{ "GET", EVHTTP_REQ_GET }, { "POST", EVHTTP_REQ_POST }, { "HEAD", EVHTTP_REQ_HEAD }, { "PUT", EVHTTP_REQ_PUT },
-	{ "DELETE", EVHTTP_REQ_DELETE }, { "OPTIONS", EVHTTP_REQ_OPTIONS }, { "TRACE", EVHTTP_REQ_TRACE }, { "PATCH", EVHTTP_REQ_PATCH },
-	{ "PROPFIND", EVHTTP_REQ_PROPFIND }, { "MOVE", EVHTTP_REQ_MOVE }, { "EXTB", SRV_EXT_B }, { "EXTN", SRV_EXT_N }, { "FOO", 0 }, { "get", 0 },
+	/* the first five are the subset crossed with the full routing product in the thorough tier */
+	{ "GET", EVHTTP_REQ_GET }, { "POST", EVHTTP_REQ_POST }, { "PATCH", EVHTTP_REQ_PATCH }, { "EXTB", SRV_EXT_B }, { "FOO", 0 },
+	{ "HEAD", EVHTTP_REQ_HEAD }, { "PUT", EVHTTP_REQ_PUT }, { "DELETE", EVHTTP_REQ_DELETE }, { "OPTIONS", EVHTTP_REQ_OPTIONS },
+	{ "TRACE", EVHTTP_REQ_TRACE }, { "PROPFIND", EVHTTP_REQ_PROPFIND }, { "MOVE", EVHTTP_REQ_MOVE }, { "EXTN", SRV_EXT_N }, { "get", 0 },
 };
 #define NMETH ((int)(sizeof METH / sizeof METH[0]))
 #define MASK_DEFAULT 0xfffffffeu   /* marker: leave evhttp's default (GET POST HEAD PUT DELETE) */
@@ -333,7 +334,10 @@ int main(int argc, char **argv)
 		add_slice("methods", (int[7]){ NVS, 0, 0, NMASKS, NMETH, 3, 4 }, (int[7]){ 0, 2, 3, 0, 0, 0, 0 }, 0);
 		add_slice("methods-vhost-default-mask", (int[7]){ NVS, 0, 0, NMASKS, NMETH, 3, 4 }, (int[7]){ 0, 2, 3, 0, 0, 0, 0 }, 1);
 		add_slice("methods-vhost-complement-mask", (int[7]){ NVS, 0, 0, NMASKS, NMETH, 3, 4 }, (int[7]){ 0, 2, 3, 0, 0, 0, 0 }, 2);
-		add_slice("routing", (int[7]){ NVS, NPS, NGEN, 0, 0, NTG, NHOSTS }, (int[7]){ 0, 0, 0, 2, 0, 0, 0 }, 0);
+		/* the full routing product, crossed with 5 methods x all masks x the three vhost-mask modes */
+		add_slice("routing", (int[7]){ NVS, NPS, NGEN, NMASKS, 5, NTG, NHOSTS }, (int[7]){ 0, 0, 0, 0, 0, 0, 0 }, 0);
+		add_slice("routing-vhost-default-mask", (int[7]){ NVS, NPS, NGEN, NMASKS, 5, NTG, NHOSTS }, (int[7]){ 0, 0, 0, 0, 0, 0, 0 }, 1);
+		add_slice("routing-vhost-complement-mask", (int[7]){ NVS, NPS, NGEN, NMASKS, 5, NTG, NHOSTS }, (int[7]){ 0, 0, 0, 0, 0, 0, 0 }, 2);
 	}
 	struct mc_config cfg = { .property = "C30", .init = init, .n_items = total, .item = item };
 	return mc_main(argc, argv, &cfg);
